@@ -98,8 +98,10 @@ Section Search.
                 else [])
              (combine (table (size p)) pri).
 
-  (* child_probs = raw_probs[valid]; child_probs /= child_probs.sum() *)
-  Definition renorm (l : list Q) : list Q := let s := sumq l in map (fun x => x / s) l.
+  (* child_probs = raw_probs[valid]; child_probs /= child_probs.sum()
+     (Qred only normalises the representation of the fractions: Qred q == q) *)
+  Definition renorm (l : list Q) : list Q :=
+    let s := Qred (sumq l) in map (fun x => Qred (x / s)) l.
 
   Definition child_of (c : cand) : node := fresh (c_pos c) (Some (c_mv c)).
 
